@@ -208,8 +208,13 @@ func c05ForceTable(c *Check, a *Anchors) {
 func c05ChecksumInputs(c *Check, a *Anchors) {
 	c.Rule("checksum-inputs", "in the checksum routine, inside the loop over the sorted glob result, the hasher receives on every iteration both the file's base name and the content of the opened file, and the returned digest is derived from that hasher only")
 	var fb *FuncBody
+	var csReach map[*FuncBody]bool
+	if up := c.P.Func(PkgFingerprint, "ChecksumChecker", "IsUpToDate"); up != nil {
+		csReach = c.P.ReachableFrom([]*FuncBody{up}, nil)
+	}
 	for _, b := range c.P.BodiesIn(PkgFingerprint) {
-		if b.Decl == nil || recvOf(b) != "ChecksumChecker" {
+		// a method of the checker, or a function of the package its IsUpToDate reaches
+		if b.Decl == nil || (recvOf(b) != "ChecksumChecker" && !csReach[b]) {
 			continue
 		}
 		for _, call := range callsIn(b, false) {
